@@ -79,6 +79,9 @@ struct Params {
     /// one of the values on the target's stack yields in its destructor (user code may do that):
     /// the cancelled coroutine passes through a yield while the cancel unwinds it
     yield_in_drop: bool,
+    /// the target is cancelled a second time, this many controller steps after the first cancel
+    /// (it is then unwinding, cleaning up, or gone): a cancel must be harmless at any moment
+    second_cancel: Option<u32>,
 }
 
 fn gen(seed: u64) -> Params {
@@ -98,6 +101,7 @@ fn gen(seed: u64) -> Params {
         never_release: r.chance(1, 4),
         adjacent: if r.chance(1, 3) { Some(r.chance(2, 3)) } else { None },
         yield_in_drop: false,
+        second_cancel: None,
     };
     // drawn last: everything above is the same as before this field existed
     let mut p = p;
@@ -108,6 +112,9 @@ fn gen(seed: u64) -> Params {
         // may claims anything about that). One worker: the count is right again as soon as the
         // unwinding is over
         p.rt.workers = 1;
+    }
+    if r.chance(1, 4) {
+        p.second_cancel = Some(r.below(50) as u32);
     }
     p
 }
@@ -446,6 +453,7 @@ pub fn run(seed: u64, mut ov: impl FnMut(&mut engine::Cfg)) -> ! {
     {
         let co = target.co.as_ref().unwrap().coroutine().clone();
         let (k, w2, cf) = (p.cancel_after, w.clone(), cancel_flag.clone());
+        let second = p.second_cancel;
         let skip = p.adjacent.is_some() && !never;
         actors.push(rt::spawn_actor(Ctx::Thread, "ctl", move || {
             if skip {
@@ -457,6 +465,12 @@ pub fn run(seed: u64, mut ov: impl FnMut(&mut engine::Cfg)) -> ! {
             w2.cancel_issued.store(true, Ordering::Relaxed);
             cf.store(true, Ordering::Relaxed);
             unsafe { co.cancel() };
+            if let Some(gap) = second {
+                for _ in 0..gap {
+                    engine::yield_point();
+                }
+                unsafe { co.cancel() };
+            }
         }));
     }
     let mut all = vec![target];
